@@ -2238,6 +2238,22 @@ def _b_sorted(it, args, kw):
         v = v.m
     if isinstance(v, SV) and v.kind == 'pmap' and not kw.get('key'):
         rev = kw.get('reverse', False)
+        # a map whose spine is known (k entries, symbolic keys): sort by forking on the key comparisons (insertion sort)
+        t = it.ctx.nz(v.t)
+        ks = []
+        while ctor_of(t) == 'pcons' and len(ks) <= 4:
+            ks.append(z3.simplify(PMp.get('pcons', 'pkey', t)) if False else t.arg(0))
+            t = t.arg(2)
+        if ctor_of(t) == 'pnil' and isinstance(rev, bool) and len(ks) <= 4:
+            out = []
+            for k in ks:
+                i = 0
+                while i < len(out) and it.ctx.branch(out[i] <= k, 'sorted: key order'):
+                    i += 1
+                out.insert(i, k)
+            if rev:
+                out.reverse()
+            return [x.as_long() if z3.is_int_value(x) else SV(x, 'int') for x in out]
         if isinstance(rev, bool):
             # the keys in sorted order: only known to be SOME list determined by the map (no order facts are assumed)
             return SV(SORTED_KEYS[rev](v.t), 'idl')
